@@ -59,6 +59,19 @@ const (
 	c16SigWrap     = "FETCH RELATIVE with a huge offset: pointer wraps around instead of stopping before the first / after the last record"
 )
 
+const c16WhatNoRecord = "no record where the snapshot has one"
+
+// c16Positional: the disagreement is one about WHERE the pointer is (a record of the snapshot at another position, a
+// record where none exists or the reverse, a status value) - what a wrapped-around pointer looks like. A row that is
+// not in the snapshot at all is another defect and keeps the signature of the operation it was seen after.
+func c16Positional(what string) bool {
+	switch what {
+	case "a row where no record exists", "snapshot row of another position", c16WhatNoRecord, "status value", c16SigVarsKept:
+		return true
+	}
+	return false
+}
+
 type c16Cfg struct {
 	ID      string
 	Src     string // file | temp
@@ -389,6 +402,8 @@ func (x *c16Exec) step(op cm.Op, pre, post cm.State, want cm.Outcome) *c16Div {
 		switch {
 		case cm.SameRow(gotRow, unset):
 			what = "variables not assigned though the record exists"
+		case cm.SameRow(gotRow, cm.Row{rv.N(), rv.N()}):
+			what = c16WhatNoRecord
 		case post.Index < len(live) && cm.SameRow(gotRow, live[post.Index]):
 			what = "row of the live table, not of the snapshot taken at OPEN"
 		default:
@@ -453,7 +468,26 @@ type c16Stats struct {
 	timeout     bool
 }
 
-type c16Pending struct{ sig, msg string }
+type c16Pending struct{ sig, msg, coarse string }
+
+// A worker keeps at most 200 signatures. One defect in how snapshots are kept shows after almost every operation
+// and would fill all of them with (operation x cursor state x probe) classes of the search, leaving none for the
+// families that run after it: the search reports its first c16FineSigs classes as they are and every further one
+// under the coarse class (table kind, kind of disagreement).
+const c16FineSigs = 60
+
+var c16Reported = map[string]bool{}
+
+func c16Sig(p c16Pending) string {
+	if c16Reported[p.sig] || p.coarse == "" {
+		return p.sig
+	}
+	if len(c16Reported) < c16FineSigs {
+		c16Reported[p.sig] = true
+		return p.sig
+	}
+	return p.coarse
+}
 
 // c16Validate runs one case; a case in which csvq gave up waiting for a lock (only possible when the machine
 // stalls for the whole wait time, there is no second process) is run a second time before it is believed.
@@ -464,7 +498,7 @@ func c16Validate(c *core.Ctx, cfg *c16Cfg, dir string, path []cm.Op, op cm.Op, v
 		pend, st = c16ValidateOnce(cfg, dir, path, op, verbose)
 	}
 	for _, p := range pend {
-		c.Violate(p.sig, p.msg, c16Payload{Cfg: cfg.ID, Path: path, Op: op})
+		c.Violate(c16Sig(p), p.msg, c16Payload{Cfg: cfg.ID, Path: path, Op: op})
 	}
 	return st
 }
@@ -474,7 +508,7 @@ func c16Validate(c *core.Ctx, cfg *c16Cfg, dir string, path []cm.Op, op cm.Op, v
 func c16ValidateOnce(cfg *c16Cfg, dir string, path []cm.Op, op cm.Op, verbose bool) (pend []c16Pending, st c16Stats) {
 	x, err := c16Start(cfg, dir, verbose)
 	if err != nil {
-		pend = append(pend, c16Pending{"harness|prelude", err.Error()})
+		pend = append(pend, c16Pending{sig: "harness|prelude", msg: err.Error()})
 		st.timeout = x != nil && x.timeout
 		return
 	}
@@ -493,10 +527,14 @@ func c16ValidateOnce(cfg *c16Cfg, dir string, path []cm.Op, op cm.Op, verbose bo
 		return "[" + cfg.ID + "] " + strings.Join(parts, "; ")
 	}
 	report := func(sig string, d *c16Div, hist string) {
+		coarse := cfg.Src + "|further operations and cursor states|" + d.What
+		if d.Soft || sig == c16SigWrap {
+			coarse = ""
+		}
 		if d.Soft {
 			sig = d.What
 		}
-		pend = append(pend, c16Pending{sig, hist + "\n" + d.Msg})
+		pend = append(pend, c16Pending{sig, hist + "\n" + d.Msg, coarse})
 	}
 
 	s := cm.State{Table: cfg.Initial, Committed: cfg.Initial}
@@ -530,7 +568,7 @@ func c16ValidateOnce(cfg *c16Cfg, dir string, path []cm.Op, op cm.Op, verbose bo
 		p2, pout := cm.Apply(s, p, &cfg.M)
 		if d := x.step(p, s, p2, pout); d != nil {
 			sig := fmt.Sprintf("%s|%s on %s|state after the operation: %s: %s", cfg.Src, c16OpClass(op), pre.Class(), c16OpClass(p), d.What)
-			if op.K == cm.FetchRel && (op.N >= 1<<62 || op.N <= -(1<<62)) {
+			if op.K == cm.FetchRel && (op.N >= 1<<62 || op.N <= -(1<<62)) && c16Positional(d.What) {
 				sig = c16SigWrap
 			}
 			report(sig, d, history(len(path)+1)+"; then probing with "+p.String())
@@ -543,12 +581,12 @@ func c16ValidateOnce(cfg *c16Cfg, dir string, path []cm.Op, op cm.Op, verbose bo
 	r := x.exec("SELECT id, v FROM " + cfg.Tbl + ";")
 	if r.Err != nil || r.Panic != nil || len(r.Views) != 1 {
 		pend = append(pend, c16Pending{fmt.Sprintf("%s|%s on %s|underlying table unreadable afterwards", cfg.Src, c16OpClass(op), pre.Class()),
-			fmt.Sprintf("%s\nSELECT from the underlying table fails: %v %v", history(len(path)+1), r.Err, r.Panic)})
+			fmt.Sprintf("%s\nSELECT from the underlying table fails: %v %v", history(len(path)+1), r.Err, r.Panic), cfg.Src + "|further operations and cursor states|underlying table unreadable afterwards"})
 		return
 	}
 	if g := c16ViewRows(r.Views[0]); !cm.SameRows(g, s.Table) {
 		pend = append(pend, c16Pending{fmt.Sprintf("%s|%s on %s|contents of the underlying table", cfg.Src, c16OpClass(op), pre.Class()),
-			fmt.Sprintf("%s\nunderlying table is %s, the modelled statements give %s", history(len(path)+1), cm.RowsKey(g), cm.RowsKey(s.Table))})
+			fmt.Sprintf("%s\nunderlying table is %s, the modelled statements give %s", history(len(path)+1), cm.RowsKey(g), cm.RowsKey(s.Table)), cfg.Src + "|further operations and cursor states|contents of the underlying table"})
 	}
 	return
 }
@@ -729,7 +767,7 @@ func c16Run(c *core.Ctx) {
 }
 
 func c16Replay(c *core.Ctx, payload json.RawMessage) {
-	if c16InvocationsReplay(c, payload) || c16RepoReplay(c, payload) {
+	if c16InvocationsReplay(c, payload) || c16RepoReplay(c, payload) || c16BlocksReplay(c, payload) || c16SharedReplay(c, payload) || c16MagnitudeReplay(c, payload) {
 		return
 	}
 	var np struct {
